@@ -3,6 +3,7 @@ CONSTANTS
   Threads <- T3
   Keys <- K3
   DirectKeys = {}
+  MaxRepeats = 2
   DepsOpts <- G_mc
   LoadsOpts <- W3_1
   SharedOpts = {TRUE, FALSE}
